@@ -112,7 +112,7 @@ theorem any_forOld {olds : List α} {news : List β} {same : α → β → Bool}
 
 /-! ### resolve?, underlying, tyMismatches -/
 
-theorem resolve?_succ {tds : List Typedef} : ∀ {f : Nat} {t r : Ty},
+theorem resolve?_succ {tds : TEnv} : ∀ {f : Nat} {t r : Ty},
     resolve? tds f t = some r → resolve? tds (f + 1) t = some r := by
   intro f
   induction f with
@@ -123,7 +123,12 @@ theorem resolve?_succ {tds : List Typedef} : ∀ {f : Nat} {t r : Ty},
     | base n => simpa [resolve?] using h
     | named n =>
       simp only [resolve?] at h ⊢
-      cases hl : lookupTd tds n with
+      cases hl : tds.loc n with
+      | none => simpa [hl] using h
+      | some body => rw [hl] at h; simp only at h ⊢; exact ih h
+    | qual i n =>
+      simp only [resolve?] at h ⊢
+      cases hl : tds.inInc i n with
       | none => simpa [hl] using h
       | some body => rw [hl] at h; simp only at h ⊢; exact ih h
     | list e =>
@@ -145,24 +150,27 @@ theorem resolve?_succ {tds : List Typedef} : ∀ {f : Nat} {t r : Ty},
           simp only [hk, hv] at h
           simp [ih hk, ih hv, h]
 
-theorem resolve?_mono {tds : List Typedef} {f g : Nat} {t r : Ty} (hfg : f ≤ g)
+theorem resolve?_mono {tds : TEnv} {f g : Nat} {t r : Ty} (hfg : f ≤ g)
     (h : resolve? tds f t = some r) : resolve? tds g t = some r := by
   induction hfg with
   | refl => exact h
   | step _ ih => exact resolve?_succ ih
 
 /-- The result does not depend on the fuel, once it is enough. -/
-theorem resolve?_fuel_indep {tds : List Typedef} {f g : Nat} {t r r' : Ty}
+theorem resolve?_fuel_indep {tds : TEnv} {f g : Nat} {t r r' : Ty}
     (h : resolve? tds f t = some r) (h' : resolve? tds g t = some r') : r = r' := by
   rcases Nat.le_total f g with hfg | hgf
   · have := resolve?_mono hfg h; rw [this] at h'; exact Option.some.inj h'
   · have := resolve?_mono hgf h'; rw [this] at h; exact (Option.some.inj h).symm
 
+/-- Not a typedef name, neither of the file itself nor (for `inc.n`) of the included file. -/
+abbrev HeadNormal (tds : TEnv) (h : Ty) : Prop :=
+  (∀ n, h = .named n → tds.loc n = none) ∧ (∀ i n, h = .qual i n → tds.inInc i n = none)
+
 /-- `UnderlyingType` reaches a type that is not a typedef name and expands to the same type. -/
-theorem underlying_spec {tds : List Typedef} : ∀ {f : Nat} {t r : Ty},
+theorem underlying_spec {tds : TEnv} : ∀ {f : Nat} {t r : Ty},
     resolve? tds f t = some r →
-      resolve? tds f (underlying tds f t) = some r ∧
-      ∀ n, underlying tds f t = .named n → lookupTd tds n = none := by
+      resolve? tds f (underlying tds f t) = some r ∧ HeadNormal tds (underlying tds f t) := by
   intro f
   induction f with
   | zero => intro t r h; simp [resolve?] at h
@@ -170,34 +178,45 @@ theorem underlying_spec {tds : List Typedef} : ∀ {f : Nat} {t r : Ty},
     intro t r h
     cases t with
     | named n =>
-      cases hl : lookupTd tds n with
+      cases hl : tds.loc n with
       | none =>
         simp only [underlying, hl]
-        exact ⟨h, by intro m hm; cases hm; exact hl⟩
+        exact ⟨h, ⟨(by intro m hm; cases hm; exact hl), (by intro i m hm; cases hm)⟩⟩
       | some body =>
         simp only [resolve?, hl] at h
         simp only [underlying, hl]
         exact ⟨resolve?_succ (ih h).1, (ih h).2⟩
-    | base n => exact ⟨h, by intro m hm; cases hm⟩
-    | list e => exact ⟨h, by intro m hm; cases hm⟩
-    | set e => exact ⟨h, by intro m hm; cases hm⟩
-    | map k v => exact ⟨h, by intro m hm; cases hm⟩
+    | qual i n =>
+      cases hl : tds.inInc i n with
+      | none =>
+        simp only [underlying, hl]
+        exact ⟨h, ⟨(by intro m hm; cases hm), (by intro j m hm; cases hm; exact hl)⟩⟩
+      | some body =>
+        simp only [resolve?, hl] at h
+        simp only [underlying, hl]
+        exact ⟨resolve?_succ (ih h).1, (ih h).2⟩
+    | base n => exact ⟨h, ⟨(by intro m hm; cases hm), (by intro i m hm; cases hm)⟩⟩
+    | list e => exact ⟨h, ⟨(by intro m hm; cases hm), (by intro i m hm; cases hm)⟩⟩
+    | set e => exact ⟨h, ⟨(by intro m hm; cases hm), (by intro i m hm; cases hm)⟩⟩
+    | map k v => exact ⟨h, ⟨(by intro m hm; cases hm), (by intro i m hm; cases hm)⟩⟩
 
 
 /-- Shape of the expansion `r` of a head-normal type. -/
-def HeadShape (tds : List Typedef) (f : Nat) (r : Ty) : Ty → Prop
+def HeadShape (tds : TEnv) (f : Nat) (r : Ty) : Ty → Prop
   | .base n => r = .base n
   | .named n => r = .named n
+  | .qual i n => r = .qual i n
   | .list e => ∃ e', resolve? tds f e = some e' ∧ r = .list e'
   | .set e => ∃ e', resolve? tds f e = some e' ∧ r = .set e'
   | .map k v => ∃ k' v', resolve? tds f k = some k' ∧ resolve? tds f v = some v' ∧ r = .map k' v'
 
-theorem resolve?_head {tds : List Typedef} {f : Nat} {h r : Ty}
-    (hr : resolve? tds (f + 1) h = some r) (hn : ∀ n, h = .named n → lookupTd tds n = none) :
+theorem resolve?_head {tds : TEnv} {f : Nat} {h r : Ty}
+    (hr : resolve? tds (f + 1) h = some r) (hn : HeadNormal tds h) :
     HeadShape tds f r h := by
   cases h with
   | base n => simpa [HeadShape, resolve?, eq_comm] using hr
-  | named n => simpa [HeadShape, resolve?, hn n rfl, eq_comm] using hr
+  | named n => simpa [HeadShape, resolve?, hn.1 n rfl, eq_comm] using hr
+  | qual i n => simpa [HeadShape, resolve?, hn.2 i n rfl, eq_comm] using hr
   | list e =>
     simp only [resolve?, Option.map_eq_some_iff] at hr
     obtain ⟨x, hx, rfl⟩ := hr; exact ⟨x, hx, rfl⟩
@@ -214,7 +233,7 @@ theorem resolve?_head {tds : List Typedef} {f : Nat} {h r : Ty}
       | some v' => simp only [hk, hv] at hr; exact ⟨k', v', hk, hv, (Option.some.inj hr).symm⟩
 
 /-- `checkType` on two types that expand: it logs a mismatch iff the expansions differ. -/
-theorem tyMismatches_pos {otds ntds : List Typedef} : ∀ {f : Nat} {a b ra rb : Ty},
+theorem tyMismatches_pos {otds ntds : TEnv} : ∀ {f : Nat} {a b ra rb : Ty},
     resolve? otds f a = some ra → resolve? ntds f b = some rb →
       (0 < tyMismatches otds ntds f a b ↔ ra ≠ rb) := by
   intro f
@@ -238,6 +257,8 @@ theorem tyMismatches_pos {otds ntds : List Typedef} : ∀ {f : Nat} {a b ra rb :
       by_cases h1 : k1 = k2 <;> by_cases h2 : v1 = v2 <;> simp [h1, h2]
     case base.base n m => subst qa; subst qb; by_cases h : n = m <;> simp [h]
     case named.named n m => subst qa; subst qb; by_cases h : n = m <;> simp [h]
+    case qual.qual i n j m =>
+      subst qa; subst qb; by_cases h1 : i = j <;> by_cases h2 : n = m <;> simp [h1, h2]
     all_goals first
       | (obtain ⟨e1, h1, rfl⟩ := qa; obtain ⟨e2, h2, rfl⟩ := qb; rw [ih h1 h2]; simp)
       | (subst qa; subst qb; simp; try omega)
@@ -250,7 +271,7 @@ theorem tyMismatches_pos {otds ntds : List Typedef} : ∀ {f : Nat} {a b ra rb :
 
 
 /-- The written type expands within the program's fuel (part of `WF` for every type of `p`). -/
-def Resolves (p : Prog) (t : Ty) : Prop := (resolve? p.typedefs p.fuel t).isSome = true
+def Resolves (p : Prog) (t : Ty) : Prop := (resolve? p.env p.fuel t).isSome = true
 
 theorem any_replicate_error {n : Nat} {k : Kind} :
     (List.replicate n (Finding.error k)).any Finding.isError = true ↔ 0 < n := by
@@ -589,12 +610,12 @@ theorem audit_iff {old new : Prog} (ho : WF old) (hn : WF new) :
 /-! ### any depth -/
 
 /-- `t` expands to `r` (with some fuel). -/
-def ResTo (tds : List Typedef) (t r : Ty) : Prop := ∃ f, resolve? tds f t = some r
+def ResTo (tds : TEnv) (t r : Ty) : Prop := ∃ f, resolve? tds f t = some r
 
-theorem ResTo.unique {tds : List Typedef} {t r r' : Ty} (h : ResTo tds t r) (h' : ResTo tds t r') : r = r' := by
+theorem ResTo.unique {tds : TEnv} {t r r' : Ty} (h : ResTo tds t r) (h' : ResTo tds t r') : r = r' := by
   obtain ⟨f, hf⟩ := h; obtain ⟨g, hg⟩ := h'; exact resolve?_fuel_indep hf hg
 
-theorem resTo_list {tds : List Typedef} {e r : Ty} (h : ResTo tds (.list e) r) :
+theorem resTo_list {tds : TEnv} {e r : Ty} (h : ResTo tds (.list e) r) :
     ∃ x, ResTo tds e x ∧ r = .list x := by
   obtain ⟨f, hf⟩ := h
   cases f with
@@ -603,7 +624,7 @@ theorem resTo_list {tds : List Typedef} {e r : Ty} (h : ResTo tds (.list e) r) :
     simp only [resolve?, Option.map_eq_some_iff] at hf
     obtain ⟨x, hx, rfl⟩ := hf; exact ⟨x, ⟨f, hx⟩, rfl⟩
 
-theorem resTo_set {tds : List Typedef} {e r : Ty} (h : ResTo tds (.set e) r) :
+theorem resTo_set {tds : TEnv} {e r : Ty} (h : ResTo tds (.set e) r) :
     ∃ x, ResTo tds e x ∧ r = .set x := by
   obtain ⟨f, hf⟩ := h
   cases f with
@@ -612,7 +633,7 @@ theorem resTo_set {tds : List Typedef} {e r : Ty} (h : ResTo tds (.set e) r) :
     simp only [resolve?, Option.map_eq_some_iff] at hf
     obtain ⟨x, hx, rfl⟩ := hf; exact ⟨x, ⟨f, hx⟩, rfl⟩
 
-theorem resTo_map {tds : List Typedef} {k v r : Ty} (h : ResTo tds (.map k v) r) :
+theorem resTo_map {tds : TEnv} {k v r : Ty} (h : ResTo tds (.map k v) r) :
     ∃ x y, ResTo tds k x ∧ ResTo tds v y ∧ r = .map x y := by
   obtain ⟨f, hf⟩ := h
   cases f with
@@ -629,7 +650,7 @@ theorem resTo_map {tds : List Typedef} {k v r : Ty} (h : ResTo tds (.map k v) r)
         exact ⟨k', v', ⟨f, hk⟩, ⟨f, hv⟩, (Option.some.inj hf).symm⟩
 
 /-- A difference in the hole is a difference of the whole types. -/
-theorem plug_differs {otds ntds : List Typedef} {a b : Ty}
+theorem plug_differs {otds ntds : TEnv} {a b : Ty}
     (hab : ∀ x y, ResTo otds a x → ResTo ntds b y → x ≠ y) :
     ∀ (c : TyCtx) {ra rb : Ty}, ResTo otds (c.plug a) ra → ResTo ntds (c.plug b) rb → ra ≠ rb := by
   intro c
@@ -658,7 +679,7 @@ theorem plug_differs {otds ntds : List Typedef} {a b : Ty}
 
 theorem typeChanged_plug {old new : Prog} {a b : Ty} (c : TyCtx)
     (hra : Resolves old (c.plug a)) (hrb : Resolves new (c.plug b))
-    (hab : ∃ x y, ResTo old.typedefs a x ∧ ResTo new.typedefs b y ∧ x ≠ y) :
+    (hab : ∃ x y, ResTo old.env a x ∧ ResTo new.env b y ∧ x ≠ y) :
     TypeChanged old new (c.plug a) (c.plug b) := by
   obtain ⟨x, y, hx, hy, hne⟩ := hab
   obtain ⟨ra, hra'⟩ := Option.isSome_iff_exists.mp hra
@@ -671,7 +692,7 @@ theorem typeChanged_plug {old new : Prog} {a b : Ty} (c : TyCtx)
 
 /-! ### compatible edits -/
 
-theorem typeChanged_same {p p' : Prog} {t : Ty} (htd : p'.typedefs = p.typedefs)
+theorem typeChanged_same {p p' : Prog} {t : Ty} (htd : p'.env = p.env)
     (h : Resolves p t) (h' : Resolves p' t) : ¬ TypeChanged p p' t t := by
   obtain ⟨r, hr⟩ := Option.isSome_iff_exists.mp h
   obtain ⟨r', hr'⟩ := Option.isSome_iff_exists.mp h'
@@ -680,7 +701,7 @@ theorem typeChanged_same {p p' : Prog} {t : Ty} (htd : p'.typedefs = p.typedefs)
   rw [htd, hr, hr', resolve?_fuel_indep hr hr']
   simp
 
-theorem fieldsCompat_not_breaking {p p' : Prog} (htd : p'.typedefs = p.typedefs) {ofs nfs : List Field}
+theorem fieldsCompat_not_breaking {p p' : Prog} (htd : p'.env = p.env) {ofs nfs : List Field}
     (hn : fieldsWF nfs) (hc : FieldsCompat ofs nfs)
     (ro : ∀ f ∈ ofs, Resolves p f.ty) (rn : ∀ g ∈ nfs, Resolves p' g.ty) :
     ¬ FieldsBreaking p p' ofs nfs := by
@@ -702,7 +723,7 @@ theorem fieldsCompat_nonempty {ofs nfs : List Field} (hc : FieldsCompat ofs nfs)
     obtain ⟨g, hg, _⟩ := hc.1 f List.mem_cons_self
     intro hnil; rw [hnil] at hg; cases hg
 
-theorem methodCompat_not_breaking {p p' : Prog} (htd : p'.typedefs = p.typedefs) {m m' : Method}
+theorem methodCompat_not_breaking {p p' : Prog} (htd : p'.env = p.env) {m m' : Method}
     (ha' : fieldsWF m'.args) (he' : fieldsWF m'.excs) (hc : MethodCompat m m')
     (ro : ∀ t ∈ m.tys, Resolves p t) (rn : ∀ t ∈ m'.tys, Resolves p' t) :
     ¬ MethodBreaking p p' m m' := by
@@ -737,7 +758,8 @@ theorem compatible_not_breaking {p p' : Prog} (hw : WF p) (hw' : WF p') (hc : Co
   have ro := wf_resolves hw
   have rn := wf_resolves hw'
   obtain ⟨_, nen, nev, nst, nfs, nsv, nsv', nsc, nops, _, _, _, _⟩ := hw'
-  obtain ⟨htd, cscopes, cenums, cstructs, cservices⟩ := hc
+  obtain ⟨htd0, hinc0, cscopes, cenums, cstructs, cservices⟩ := hc
+  have htd : p'.env = p.env := by simp [Prog.env, htd0, hinc0]
   rintro (h | h | h | h)
   · obtain ⟨s, hs, h⟩ := h
     obtain ⟨s1, hs1, hn1, hp1, hops1⟩ := cscopes s hs
@@ -796,12 +818,31 @@ theorem fieldsCompat_map {fs : List Field} (h : Field → Field)
 
 theorem compatible_refl {p : Prog} (hw : WF p) : Compatible p p := by
   obtain ⟨_, hen, _⟩ := hw
-  refine ⟨rfl, fun s hs => ⟨s, hs, rfl, prefixAgree_refl _, fun o ho => ⟨o, ho, rfl, rfl⟩⟩, ?_,
+  refine ⟨rfl, rfl, fun s hs => ⟨s, hs, rfl, prefixAgree_refl _, fun o ho => ⟨o, ho, rfl, rfl⟩⟩, ?_,
     fun s hs => ⟨s, hs, rfl, rfl, fieldsCompat_refl _⟩,
     fun s hs => ⟨s, hs, rfl, Or.inr rfl, fun m hm => ⟨m, hm, rfl, rfl, rfl, fieldsCompat_refl _, fieldsCompat_refl _, fun _ h => h⟩⟩⟩
   intro e he e' he' hn v hv
   have : e' = e := uniq_of_nodup_map hen e' he' e he hn
   subst this; exact ⟨v, hv, rfl⟩
+
+
+/-- A type without names expands to itself whatever the typedefs are. -/
+theorem resolve?_nameFree {e e' : TEnv} : ∀ {f : Nat} {t : Ty}, t.nameFree = true →
+    resolve? e f t = resolve? e' f t := by
+  intro f
+  induction f with
+  | zero => intro t _; rfl
+  | succ f ih =>
+    intro t h
+    cases t with
+    | base n => rfl
+    | named n => simp [Ty.nameFree] at h
+    | qual i n => simp [Ty.nameFree] at h
+    | list x => simp only [resolve?]; rw [ih (by simpa [Ty.nameFree] using h)]
+    | set x => simp only [resolve?]; rw [ih (by simpa [Ty.nameFree] using h)]
+    | map k v =>
+      simp only [Ty.nameFree, Bool.and_eq_true] at h
+      simp only [resolve?]; rw [ih h.1, ih h.2]
 
 
 end FV.AuditProofs
